@@ -222,6 +222,7 @@ impl Property for C04 {
             "grid: topology {{pair, ring of 3, star of 3 with submodules and a gate cluster, NDL-built network of 7 with a module cluster and four gate groups per module type}} x channel jitter {{0, 1 ms}} x module restart at a random-drawn time on/off x extra interval/sample tasks on/off = 32 models, x seeds {:?}; \
              every module draws random() in handlers and tasks, sends last messages from at_sim_end (which must not surface in any later simulation), runs an unbiased 4-way select! over equal deadlines and a receive, and sends over random subsets of its gates; each (model, seed) is run by two different worker processes, in each of them twice (the second time after other simulations ran in that process); \
              the complete traces (time, module path, callback, message kind/id, drawn values, select branch, tick times, final time, event count, result) must be identical in all four executions; per model the traces of different seeds must differ; \
+             plus one forced two-thread schedule (a Builder::build in another thread waits for the simulation lock while a simulation is paused between two steps: clock and random() history of the paused simulation must equal the run without the visitor); \
              a case is one (model, seed); non-trivial = every case (all draw randomness)",
             seeds(0, tier)
         )
@@ -233,9 +234,19 @@ impl Property for C04 {
         ]
     }
     fn required_features(&self, _tier: Tier) -> Vec<&'static str> {
-        vec!["same_process_rerun", "ndl_model", "jitter_model", "restart_model", "seeds_distinguish_traces", "cross_process_comparison"]
+        vec!["same_process_rerun", "ndl_model", "jitter_model", "restart_model", "seeds_distinguish_traces", "cross_process_comparison", "builder_waiting_in_another_thread"]
     }
     fn explore(&self, ctx: &mut Ctx) {
+        if ctx.is_first_shard() {
+            // the one interleaving another thread can add: a builder that waits for the simulation lock
+            ctx.out.evaluations += 1;
+            ctx.hit("builder_waiting_in_another_thread");
+            match quiet_catch(vcheck::threadlab::waiting_builder_probe) {
+                Ok(Ok(o)) => ctx.outcome(o),
+                Ok(Err(d)) => ctx.violation("violation", || json!({"probe": "waiting_builder"}), d),
+                Err(m) => ctx.violation("violation", || json!({"probe": "waiting_builder"}), format!("panicked: {m}")),
+            }
+        }
         let ms = models();
         let ss = seeds(ctx.seed, ctx.tier);
         // first pass: T1 of every owned case; second pass (after everything else ran): T2
@@ -348,6 +359,9 @@ impl Property for C04 {
         }
     }
     fn replay(&self, case: &Value) -> Result<(), String> {
+        if case.get("probe").and_then(Value::as_str) == Some("waiting_builder") {
+            return quiet_catch(vcheck::threadlab::waiting_builder_probe).map_err(|m| format!("panicked: {m}"))?.map(|_| ());
+        }
         let m = Model { topo: case["topo"].as_u64().unwrap() as u8, jitter: case["jitter"].as_bool().unwrap(), restart: case["restart"].as_bool().unwrap(), extra_tasks: case["extra_tasks"].as_bool().unwrap() };
         let s = case["seed"].as_u64().unwrap();
         let t1 = run(m, s).map_err(|e| format!("panicked: {e}"))?;
